@@ -275,7 +275,10 @@ def random_program(rng, np_, maxctl, wait):
 def m1(ctx):
     # *_fault_* configurations: a device write may raise once per player (Faults = TRUE)
     main_cfgs = ("AudioIO_fixed_nowait.cfg", "AudioIO_fixed_wait.cfg", "AudioIO_fault_nowait.cfg",
-                 "AudioIO_fault_wait.cfg") if ctx.thorough else \
+                 "AudioIO_fault_wait.cfg",
+                 # three players, one chunk each, four control calls (~1e6 states each)
+                 "AudioIO_np3c4_nowait.cfg", "AudioIO_np3c4_wait.cfg", "AudioIO_np3fault_nowait.cfg") \
+        if ctx.thorough else \
         ("AudioIO_q_nowait.cfg", "AudioIO_q_wait.cfg", "AudioIO_qfault_nowait.cfg", "AudioIO_qfault_wait.cfg")
     sens_cfgs = (("AudioIO_sens_stop.cfg", ("temporal",)), ("AudioIO_sens_join.cfg", ("NoThreadAlive",)),
                  ("AudioIO_sens_fault.cfg", ("temporal",))) \
